@@ -136,6 +136,142 @@ def abstract_told(ev_list):
     return told
 
 
+class InSitu:
+    """Records what the library itself (FileIndex, LogPass.setFrameSet, the LAS converter) does to ONE real FileRead of a
+    generated LIS file with real content, as the same events as Driver.  Read results are projected onto the known logical
+    records by content at the mirrored cursor."""
+    def __init__(self, fr, lrs, starts):
+        self.fr, self.lrs, self.starts = fr, lrs, starts
+        self.lens = [len(x) for x in lrs]
+        self.ev = []
+        self.mode, self.j, self.k, self.o = 'fresh', 1, 0, 0
+        self.told = False
+        self.alive = True
+        self.at_eof = False
+        self.why = ''
+        for name in ('readLrBytes', 'skipLrBytes', 'skipToNextLr', 'seekLr', 'seekCurrentLrStart', 'tellLr'):
+            setattr(fr, name, self._wrap(name, getattr(fr, name)))
+        self.depth = 0
+
+    def _enter(self):
+        if self.mode == 'fresh' and self.j <= len(self.lens):
+            self.mode, self.k, self.o = 'in', self.j, 0
+
+    def _take(self, n):
+        self._enter()
+        if self.mode != 'in':
+            return None
+        L = self.lens[self.k - 1]
+        hint = (self.k, self.o)
+        if self.o == L or n < 0:
+            self.mode, self.j = 'fresh', self.k + 1
+        else:
+            self.o = min(L, self.o + n)
+        return hint
+
+    def _proj(self, data, hint):
+        if not data:
+            return []
+        if hint is not None:
+            k, o = hint
+            if self.lrs[k - 1][o:o + len(data)] == data:
+                return [k, o + 1, o + len(data)]
+        return ['X', len(data)]
+
+    def _wrap(self, name, fn):
+        def w(*a, **kw):
+            if not self.alive or self.depth:
+                return fn(*a, **kw)
+            if self.at_eof and name not in ('seekLr', 'tellLr'):
+                self.alive, self.why = False, '%s after end of file' % name
+                return fn(*a, **kw)
+            self.depth += 1
+            try:
+                if name in ('readLrBytes', 'skipLrBytes'):
+                    n = a[0] if a else kw.get('theLen', -1)
+                    if not isinstance(n, int) or n == 0 or n < -1:
+                        self.alive, self.why = False, 'size argument %r outside the property' % (n,)
+                        return fn(*a, **kw)
+                    hint = self._take(n)
+                    r = fn(*a, **kw)
+                    self.told = True
+                    if name == 'readLrBytes':
+                        self.ev.append(dict(op='take', kind='read', n=n, r=self._proj(r or b'', hint), cnt=len(r or b'')))
+                    else:
+                        self.ev.append(dict(op='take', kind='skip', n=n, r=[], cnt=r or 0))
+                elif name == 'skipToNextLr':
+                    self._take(-1)
+                    self._enter()
+                    r = fn(*a, **kw)
+                    self.told = True
+                    self.ev.append(dict(op='tonext', cnt=r or 0))
+                elif name == 'seekLr':
+                    off = a[0] if a else kw.get('offset')
+                    if off not in self.starts:
+                        self.alive, self.why = False, 'seek to %r which is not a record start' % (off,)
+                        return fn(*a, **kw)
+                    j = self.starts.index(off) + 1
+                    self.mode, self.j, self.told, self.at_eof = 'fresh', j, False, False
+                    r = fn(*a, **kw)
+                    self.ev.append(dict(op='seek', j=j, p=off))
+                elif name == 'seekCurrentLrStart':
+                    if not self.told:
+                        self.alive, self.why = False, 'seekCurrentLrStart before any record was entered'
+                        return fn(*a, **kw)
+                    self.mode, self.j = 'fresh', self.k if self.mode == 'in' else self.j - 1
+                    self.told = False
+                    r = fn(*a, **kw)
+                    self.ev.append(dict(op='seekcur', p=r))
+                else:
+                    r = fn(*a, **kw)
+                    if self.told:                      # otherwise the value is undefined by the specification: not judged
+                        self.ev.append(dict(op='tell', r=r))
+                    return r
+                self.ev.append(dict(op='eofflag', v=bool(self.fr.isEOF)))
+                self.at_eof = bool(self.fr.isEOF)      # only a seek may follow (reads after EOF are outside the property)
+                return r
+            except Exception as e:
+                self.ev.append(dict(op='exception', during=name, err='%s: %s' % (type(e).__name__, str(e)[:160])))
+                self.alive = False
+                raise
+            finally:
+                self.depth -= 1
+        return w
+
+
+def in_situ(ctx, add):
+    from . import c06
+    from TotalDepth.LIS.core import File, FileIndexer
+    rng = ctx.subrng('c05-insitu')
+    n = 0
+    for t in range(ctx.pick(60, 600)):
+        L = c06.build_lrs(rng, ctx)
+        lrs = L['lrs']
+        maxpay = rng.choice([16, 60, 200, 1020, 60000])
+        tif = rng.choice(['none', 'le'])
+        splits = [G.random_split(rng, len(x), maxpay) for x in lrs]
+        layout = G.layout_from_splits(splits, rng, rng.choice([(0, 0, 0), (1, 1, 0)]))
+        data, starts = G.render(lrs, layout, tif)
+        fr = File.FileRead(io.BytesIO(data), 'verif', keepGoing=False)
+        rec = InSitu(fr, lrs, starts)
+        m = dict(insitu=True, tif=tif, maxpay=maxpay, records=len(lrs), pattern=L['pattern'])
+        try:
+            idx = FileIndexer.FileIndex(fr)
+            total = sum(L['pattern'])
+            for ilp in idx.genLogPasses():
+                for _ in range(3):
+                    a = rng.randrange(0, total)
+                    b = rng.randint(a + 1, total)
+                    ilp.logPass.setFrameSet(fr, slice(a, b, rng.choice([1, 2, 3])), None if rng.random() < 0.5 else sorted(rng.sample(range(L['nch']), rng.randint(1, L['nch']))))
+        except Exception as e:
+            m['library_exception'] = '%s: %s' % (type(e).__name__, e)
+        lens = [len(x) for x in lrs]
+        add('read', [dict(op='pr', **p) for p in layout] + [dict(op='endlayout', size=len(data))] + rec.ev, lens, tif, None, dict(m, stopped=rec.why))
+        ctx.case(('insitu', t), len(rec.ev) > 10)
+        n += len(rec.ev)
+    ctx.notes['insitu_reader_events'] = n
+
+
 def run(ctx):
     repo.setup()
     from TotalDepth.LIS.core import File, PhysRec
@@ -280,6 +416,7 @@ def run(ctx):
                 lens, tif, None, dict(m, readback=True))
         except Exception as e:
             pass
+    in_situ(ctx, add)
     ctx.rule = ('one case = one generated or written LIS file with one operation history on one real reader (or one '
                 'writer run); non-trivial = some logical record spans >= 2 physical records')
     for i in (0, len(traces) // 2, len(traces) - 1):
